@@ -29,6 +29,8 @@ import os
 import sys
 import math
 import itertools
+import signal
+import contextlib
 from collections import Counter
 
 _H = os.path.dirname(os.path.dirname(os.path.abspath(__file__)))
@@ -244,7 +246,13 @@ class _Run:
     def check_order(self, step):
         sd = self.sd
         try:
-            trav = [it for it in sd]
+            trav = []
+            for it in sd:
+                trav.append(it)
+                if len(trav) > len(self.items) + 2:
+                    self.bad(step, "traversal does not terminate (cyclic neighbour links)",
+                             prefix=[self.idx(t) for t in trav[:12]])
+                    return
         except Exception as e:    # noqa: BLE001
             self.bad(step, "traversal raised " + type(e).__name__)
             return
@@ -477,16 +485,47 @@ class _Run:
         self.check_order(step)
 
 
-def run_s_history(h, maxviol=3):
+class _Timeout(Exception):
+    pass
+
+
+@contextlib.contextmanager
+def _watchdog(seconds):
+    """a corrupted linked list or queue makes the container's own loops (Find, Refill, the stale-entry loop) spin
+    forever: bound every history"""
+    def onalarm(signum, frame):
+        raise _Timeout()
+    try:
+        old = signal.signal(signal.SIGALRM, onalarm)
+    except ValueError:          # not in the main thread: no guard available
+        yield
+        return
+    signal.setitimer(signal.ITIMER_REAL, seconds)
+    try:
+        yield
+    finally:
+        signal.setitimer(signal.ITIMER_REAL, 0)
+        signal.signal(signal.SIGALRM, old)
+
+
+def run_s_history(h, maxviol=1):
+    """stops at the first violation: afterwards specification and container have diverged"""
     run_ = _Run(h)
-    for step, op in enumerate(h["ops"]):
-        try:
-            run_.step(step, op)
-        except Exception as e:      # noqa: BLE001 - an exception on a well-formed history is itself a finding
-            run_.bad(step, f"operation raised {type(e).__name__}: {e}")
-            break
-        if len(run_.viol) >= maxviol:
-            break
+    step = -1
+    try:
+        with _watchdog(10.0):
+            for step, op in enumerate(h["ops"]):
+                try:
+                    run_.step(step, op)
+                except _Timeout:
+                    raise
+                except Exception as e:      # noqa: BLE001 - an exception on a well-formed history is itself a finding
+                    run_.bad(step, f"operation raised {type(e).__name__}: {e}")
+                    break
+                if len(run_.viol) >= maxviol:
+                    break
+    except _Timeout:
+        run_.bad(max(step, 0), "operation did not terminate within 10 s (cyclic links / endless stale-entry loop?)")
     return run_.viol, (run_.nins > 0 and run_.npop > 0), run_.stats
 
 
@@ -566,6 +605,6 @@ def replay(case):
     if h["part"] == "Q":
         v, _ = run_q_history(h)
     else:
-        v, _, _ = run_s_history(h, maxviol=50)
+        v, _, _ = run_s_history(h)
     same = [x for x in v if x["what"] == case.get("what")]
     return {"reproduced": bool(same), "detail": [{k: x[k] for k in x if k != "history"} for x in (same or v)[:2]]}
